@@ -30,6 +30,30 @@ WANT = {
 JSON_PRED = re.compile(r"^(is_|as_)\w+$")
 
 
+ROLE = {}
+
+
+def _roles(prog, fn):
+    """names of the parameters by their role (type), so that renaming a parameter or a local does
+    not change what the rules read: value = the JSON value, ty = the ast::Type being coerced to"""
+    out = {}
+    for p in prog.hir_body(fn)["params"]:
+        if p.get("k") != "bind":
+            continue
+        t = p.get("ty") or ""
+        if re.search(r"serde_json_bytes::Value$", t):
+            out["value"] = p["name"]
+        elif re.search(r"ast::Type$", t):
+            out["ty"] = p["name"]
+    if "value" not in out or "ty" not in out:
+        raise Undecided("%s: parameters of type &serde_json_bytes::Value / &ast::Type not found" % fn.name)
+    return out
+
+
+def _pat_bindings(p):
+    return [q["name"] for q in walk(p) if q.get("k") == "bind"]
+
+
 def _is_err(n):
     c = n.get("callee")
     return bool(c) and c[0] == "def" and (c[2].endswith("::Err") or "Result::Err" in str(c[3]))
@@ -38,7 +62,7 @@ def _is_err(n):
 def _value_preds(node):
     out = set()
     for n in walk(node):
-        if n.get("k") == "mcall" and JSON_PRED.match(n["m"]) and local_of(n["recv"]) == "value":
+        if n.get("k") == "mcall" and JSON_PRED.match(n["m"]) and local_of(n["recv"]) == ROLE.get("value", "value"):
             out.add(n["m"])
     return out
 
@@ -46,6 +70,7 @@ def _value_preds(node):
 def rule_scalars(prog, rep):
     rep.floor("C28.SCALARS", 6)
     fn = prog.fn(r"^apollo_compiler::resolvers::input_coercion::coerce_variable_value$")
+    ROLE.update(_roles(prog, fn))
     body = prog.hir_body(fn)["body"]
     ms = []
     for n in walk(body):
@@ -118,6 +143,7 @@ def rule_scalars(prog, rep):
 def rule_shape(prog, rep):
     rep.floor("C28.SHAPE", 5)
     fn = prog.fn(r"^apollo_compiler::resolvers::input_coercion::coerce_variable_value$")
+    ROLE.update(_roles(prog, fn))
     body = prog.hir_body(fn)["body"]
     stmts = body.get("stmts", []) if body.get("k") == "block" else []
     # (1) the first statement is the null test
@@ -127,20 +153,20 @@ def rule_shape(prog, rep):
     ok = False
     if first.get("k") == "if":
         c = strip_expr(first["cond"])
-        if c.get("k") == "mcall" and c["m"] == "is_null" and local_of(c["recv"]) == "value":
+        if c.get("k") == "mcall" and c["m"] == "is_null" and local_of(c["recv"]) == ROLE["value"]:
             inner = [n for n in walk(first["then"]) if n.get("k") == "if"]
             if inner:
                 ic = strip_expr(inner[0]["cond"])
                 then_err = any(n.get("k") == "call" and _is_err(n) for n in walk(inner[0]["then"]))
                 else_null = any(n.get("k") == "path" and n.get("res") and n["res"][0] == "def" and n["res"][2].endswith("Value::Null") for n in walk(inner[0].get("else") or {}))
-                if ic.get("k") == "mcall" and ic["m"] == "is_non_null" and local_of(ic["recv"]) == "ty" and then_err and else_null:
+                if ic.get("k") == "mcall" and ic["m"] == "is_non_null" and local_of(ic["recv"]) == ROLE["ty"] and then_err and else_null:
                     ok = True
     if ok:
         rep.instance("C28.SHAPE", "null first: error for non-null types, JSON null otherwise")
     else:
         rep.finding("C28.SHAPE", fn.name, "null", "coerce_variable_value does not start with `null -> error if non-null type else Null`", fn.loc())
     # (2) list arm
-    tm = [n for n in walk(body) if n.get("k") == "match" and n.get("src") == "normal" and local_of(n["scrut"]) == "ty"]
+    tm = [n for n in walk(body) if n.get("k") == "match" and n.get("src") == "normal" and local_of(n["scrut"]) == ROLE["ty"]]
     ok = False
     if tm:
         i = first_match(tm[0]["arms"], lambda p: pat_matches_variant(p, "List"))
@@ -148,8 +174,8 @@ def rule_shape(prog, rep):
         if i is not None and i == j:
             ab = tm[0]["arms"][i]["body"]
             ms = [n["m"] for n in walk(ab) if n.get("k") == "mcall"]
-            fr = [n for n in walk(ab) if n.get("k") == "call" and (callee_path(n) or "").endswith("slice::from_ref") and local_of(n["args"][0]) == "value"]
-            rec = [n for n in walk(ab) if n.get("k") == "call" and (callee_path(n) or "").endswith("coerce_variable_value") and local_of(n["args"][2]) == "inner" and local_of(n["args"][3]) == "item"]
+            fr = [n for n in walk(ab) if n.get("k") == "call" and (callee_path(n) or "").endswith("slice::from_ref") and local_of(n["args"][0]) == ROLE["value"]]
+            rec = [n for n in walk(ab) if n.get("k") == "call" and (callee_path(n) or "").endswith("coerce_variable_value") and local_of(n["args"][2]) in _pat_bindings(tm[0]["arms"][i]["pat"]) and local_of(n["args"][3]) not in (None, ROLE["value"], ROLE["ty"])]
             if "as_array" in ms and "unwrap_or" in ms and fr and rec and "collect" in ms:
                 ok = True
     if ok:
@@ -157,7 +183,9 @@ def rule_shape(prog, rep):
     else:
         rep.finding("C28.SHAPE", fn.name, "list", "list coercion no longer wraps a non-array in a one-element list and recurses on the item type", fn.loc())
     # (3) input objects
-    em = [n for n in walk(body) if n.get("k") == "match" and n.get("src") == "normal" and local_of(n["scrut"]) == "ty_def"]
+    # the match over the kind of the named type: the one whose arms are ExtendedType variants
+    em = [n for n in walk(body) if n.get("k") == "match" and n.get("src") == "normal" and local_of(n["scrut"])
+          and sum(1 for arm in n["arms"] if any("schema::ExtendedType::" in str(q.get("res")) for q in walk(arm["pat"]))) >= 2]
     ok_unknown = ok_fields = False
     if em:
         i = first_match(em[0]["arms"], lambda p: pat_matches_variant(p, "InputObject"))
@@ -194,20 +222,21 @@ def rule_shape(prog, rep):
     # (4) coerce_variable_values
     cv = prog.fn(r"^apollo_compiler::resolvers::input_coercion::coerce_variable_values$")
     b2 = prog.hir_body(cv)["body"]
+    maps = set(n["pat"]["name"] for n in walk(b2) if n.get("k") == "slet" and n["pat"].get("k") == "bind" and re.search(r"serde_json_bytes::Map<|JsonMap", n["pat"].get("ty") or ""))
     ok = False
     for n in walk(b2):
         if n.get("k") == "if" and n["cond"].get("k") == "let" and any(x.get("k") == "mcall" and x["m"] == "get_key_value" for x in walk(n["cond"]["init"])):
-            t_ins = any(x.get("k") == "mcall" and x["m"] == "insert" and local_of(x["recv"]) == "coerced_values" for x in walk(n["then"]))
+            t_ins = any(x.get("k") == "mcall" and x["m"] == "insert" and local_of(x["recv"]) in maps for x in walk(n["then"]))
             t_rec = any(x.get("k") == "call" and (callee_path(x) or "").endswith("coerce_variable_value") for x in walk(n["then"]))
             e1s = strip_expr(n.get("else") or {})
-            dflt = e1s.get("k") == "if" and e1s["cond"].get("k") == "let" and any(x.get("k") == "field" and x.get("name") == "default_value" for x in walk(e1s["cond"]["init"])) and any(x.get("k") == "mcall" and x["m"] == "insert" and local_of(x["recv"]) == "coerced_values" for x in walk(e1s["then"]))
+            dflt = e1s.get("k") == "if" and e1s["cond"].get("k") == "let" and any(x.get("k") == "field" and x.get("name") == "default_value" for x in walk(e1s["cond"]["init"])) and any(x.get("k") == "mcall" and x["m"] == "insert" and local_of(x["recv"]) in maps for x in walk(e1s["then"]))
             e2s = strip_expr(e1s.get("else") or {}) if dflt else {}
             nn = e2s.get("k") == "if" and any(x.get("k") == "mcall" and x["m"] == "is_non_null" for x in walk(e2s["cond"])) and any(x.get("k") == "ret" for x in walk(e2s["then"]))
             e3 = strip_expr(e2s.get("else") or {}) if nn else None
             no_insert_else = e3 is not None and not any(x.get("k") == "mcall" and x["m"] == "insert" for x in walk(e3))
             if t_ins and t_rec and dflt and nn and no_insert_else:
                 ok = True
-    inserts = [x for x in walk(b2) if x.get("k") == "mcall" and x["m"] == "insert" and local_of(x["recv"]) == "coerced_values"]
+    inserts = [x for x in walk(b2) if x.get("k") == "mcall" and x["m"] == "insert" and local_of(x["recv"]) in maps]
     if ok and len(inserts) == 2:
         rep.instance("C28.SHAPE", "coerce_variable_values: inserts exactly provided (coerced) or defaulted variables; missing non-null -> error; missing nullable -> absent")
     else:
